@@ -121,6 +121,7 @@ func partD(o Opts, rng *Rng, res *Result, zctx *zed.Context, U []UVal, base map[
 		for _, r := range c.Rows {
 			byID[r.ID] = r
 		}
+		crumb(c.replay(map[string]any{"part": "MergeSort / merge operator"}))
 		cmp := tableCmp(base, c.Keys, c.NullsFirst, c.Reverse)
 		sorted := refStableSort(c.Rows, cmp)
 		want := idsOf(sorted)
